@@ -87,7 +87,7 @@ func ShrinkingMap.GetOrCreate#atomic
   requires s != nil && unlocked(s.mutex) && defaultValueFunc != nil
   callback defaultValueFunc() (v)
   modifies everything
-  ghost before call ShrinkingMap.GetOrCreate#defaultValueFunc: assert held(s.mutex) && !has(s.m, key)
+  ghost before call ShrinkingMap.GetOrCreate#atomic#defaultValueFunc: assert held(s.mutex) && !has(s.m, key)
   ensures unlocked(s.mutex)
 
 -- Compute: the value under the key becomes what the (pure) function makes of the current one - the zero value and false
